@@ -38,6 +38,7 @@ func runC20(r *Report, p *Program) {
 	bodyBypassRule(h, "R8", 1, func(t *types.Named) bool { return t.Obj().Name() == "ResponseRecorder" })
 	c20R9(h)
 	c20R10(h)
+	c20R11(h)
 }
 
 func c20R1(h H) {
